@@ -489,7 +489,9 @@ func runC02(w *World, r *Report, tier string) {
 						okEOF = false
 						return
 					}
-					if c, ok := rres(path, ret)[1].(*ssa.Call); !ok || w.callKey(c) != "errors.New" {
+					// (the comparison may sit in a helper that maps the token error: its own single result)
+					rr := rres(path, ret)
+					if c, ok := rr[len(rr)-1].(*ssa.Call); !ok || w.callKey(c) != "errors.New" {
 						okEOF = false
 					}
 				})
